@@ -193,6 +193,16 @@ H_NewDflt(e) ==
          /\ Chk("C10", "with_capacity_then_n_insertions_without_reallocation", e,
                 e.res.t = "newd" => (e.res.len = e.ncap /\ e.res.al1 = 0 /\ e.res.cap1 >= e.res.cap0 /\ e.res.all = 1))
 
+\* a large collection deserialised from a source with an exact size hint, into slot d
+H_SerdeBig(e) ==
+    /\ Frame(e, {e.d})
+    /\ NoPanic(e)
+    /\ Chk("C16", "deserialize_completes", e, ~Panicked(e))
+    /\ (~Panicked(e)) =>
+         Chk("C16", "deserialize_yields_equal_collection", e,
+             Alive(e.st, e.d) /\ e.res.t = "sbig" /\ e.res.len = e.nn /\ e.res.found = e.nn /\ Post(e, e.d).len = e.nn
+             /\ Post(e, e.d).cap >= e.nn)
+
 H_Insert(e) ==
     LET s == e.s IN
     /\ Frame(e, {s})
@@ -959,6 +969,7 @@ Dispatch(e) ==
       [] e.op \in {"ParExtend", "FromPar"} -> H_ParExtend(e)
       [] e.op = "SPar" -> H_SPar(e)
       [] e.op = "Serde" -> H_Serde(e)
+      [] e.op = "SerdeBig" -> H_SerdeBig(e)
       [] e.op \in {"SInsert", "SReplace", "STake", "SRemove", "SContains", "SGet",
                    "SGetOrInsert", "SGetOrInsertOwned", "SGetOrInsertWith"} -> H_SetOp(e)
       [] OTHER -> Chk("TOOL", "unknown_op", e, FALSE)
